@@ -549,6 +549,9 @@ class Alias(GraphNode):
                     f"Invalid substitution encountered {self.key!r} -> {sub_key}"
                 )
             return Alias(key or sub_key, val)  # type: ignore [arg-type]
+        if key is not None and key != self.key:
+            # Rename only
+            return Alias(key, self.target)
         return self
 
     def __dask_tokenize__(self):
